@@ -13,6 +13,7 @@ RULE = ("complete enumeration of what the shunting loop can distinguish: every i
         "every tree shape (1,2,5) x {fully bracketed, minimally bracketed by the reference precedence} x 3 bracket styles x 3 leaf "
         "tuples (negative operands so floor != truncation); every prefix operator in every grammatical position of every 2-operator tree; "
         "6-operator flat and right-nested spines for all 144 operator pairs; every literal spelling x boundary values; 8/9 rejection; "
+        "every 1-2 operator tree whose leaves repeat an operand (x+x, x*y-x), also with every leaf a symbol assigned from a symbol that is defined below the statement (a bare unknown when visited); "
         "every 2-operator tree with '.' among its leaves inside '.repeat 3 {...}' (one token evaluated at three addresses); leaf regimes: constants, symbols defined before, symbols defined after, address-valued (labels, '.') with the link base settled "
         "first / last / defaulted. Values are read back through .dword or four 16-bit slices and compared with pdpmc/ref/expr.py; trees "
         "whose reference value is an error must fail. Non-trivial = distinct (regime, expression text) pairs")
@@ -143,7 +144,13 @@ def make_item(tag, tree, mode, style, full, tup, uid):
         stmt = observe(text, v0)[0]
         return ("good", (tag, mode, text), stmt, exp_bytes)
     env = list(tup)
-    if mode == "const":
+    if mode == "chain":
+        # every leaf is a symbol assigned from another symbol that is defined only below the statement: when the statement is
+        # visited the leaf is a bare unknown (not yet a number, not yet a polynomial)
+        names = ["s%dx%d" % (uid, i) for i in range(n_leaves)]
+        text = render(tree, lambda i: names[i], style, full)
+        defs = (["%s = c%s" % (names[i], names[i]) for i in used_leaves(tree)], ["c%s = %s" % (names[i], lit_text(tup[i])) for i in used_leaves(tree)])
+    elif mode == "const":
         text = render(tree, lambda i: lit_text(tup[i]), style, full)
         defs = []
     else:
@@ -162,6 +169,8 @@ def make_item(tag, tree, mode, style, full, tup, uid):
 
 
 def text_with_mode(stmt, mode, defs, tup):
+    if mode == "chain":
+        return "\n".join(defs[0] + [stmt] + defs[1])
     if mode == "before":
         return "\n".join(defs + [stmt])
     if mode == "after":
@@ -181,6 +190,12 @@ def used_leaves(t):
     return []
 
 
+def relabel(t, assign):
+    if t[0] == "leaf":
+        return ("leaf", assign[t[1]])
+    return ("bin", t[1], relabel(t[2], assign), relabel(t[3], assign))
+
+
 def uses_dot(t):
     return 2 in used_leaves(t)
 
@@ -198,6 +213,9 @@ def cases(tier):
     yield {"k": "bad-digits"}
     for first in ref.INFIX:
         yield {"k": "in-repeat", "first": first}
+    for mode in MODES_Q + ["chain"]:
+        for first in ref.INFIX:
+            yield {"k": "repeated-leaf", "mode": mode, "first": first}
 
 
 def run_items(items, r, mode):
@@ -287,6 +305,27 @@ def check(case, r, tier):
                         items.append(make_item("spine-right", right, mode, style, True, tup, uid))
                         uid += 1
                         items.append(make_item("spine-left", left, mode, style, True, tup, uid))
+        run_items(items, r, mode)
+    elif k == "repeated-leaf":
+        # one operand standing in several places of one expression ('x + x', 'x * y - x'): trees of 1-2 operators whose leaves are
+        # drawn with repetition from three operands
+        mode = case["mode"]
+        items, uid = [], 0
+        for n in (1, 2):
+            for rest in itertools.product(ref.INFIX, repeat=n - 1):
+                ops = [case["first"]] + list(rest)
+                for shape in ref.shapes(n):
+                    tree0 = ref.instantiate(shape, ops)
+                    for assign in itertools.product((0, 1, 2), repeat=n + 1):
+                        if len(set(assign)) == n + 1:
+                            continue
+                        tree = relabel(tree0, assign)
+                        for tup in (TUPLES if thorough else TUPLES[:1]):
+                            for vary in range(4 if mode.startswith("addr") else 1):
+                                uid += 1
+                                while mode.startswith("addr") and uid % 4 != vary:
+                                    uid += 1
+                                items.append(make_item("rep", tree, mode, STYLES[uid % 3], False, tup, uid))
         run_items(items, r, mode)
     elif k == "in-repeat":
         # the same expression token evaluated at successive addresses: '.repeat 3 { .dword e }' with '.' among the leaves
